@@ -116,6 +116,7 @@ fn opts(max_bound: u32, tier: Tier) -> SchedOpts {
         max_bound,
         check_lin: true,
         c14: false,
+        c14_clause: "over-limit-after-race",
         c15: false,
         max_steps: 20_000,
         max_execs: if tier == Tier::Quick { 400_000 } else { 20_000_000 },
@@ -297,6 +298,29 @@ pub fn c16_families(tier: Tier) -> Vec<Family> {
 pub fn c14_families(tier: Tier) -> Vec<Family> {
     let (same, diff) = sibling_keys(K);
     let mut fams = vec![];
+    // no memory pressure during the race (limit 400), then sequential stores fill the cache: any
+    // mis-accounting caused by the race itself shows when the limit is reached
+    {
+        let mut o = opts(if tier == Tier::Quick { 2 } else { 3 }, tier);
+        o.check_lin = false;
+        o.c14 = true;
+        o.c14_clause = "over-limit-after-quiet-race";
+        let alpha = [T::Set, T::SetBig, T::AppendBig, T::Incr, T::Del, T::Get, T::SetOther, T::DelOther];
+        let stores = [T::Set, T::SetBig, T::AppendBig, T::Incr, T::SetOther];
+        for (kname, other) in [("same-shard", &same), ("other-shard", &diff)] {
+            let keys = vec![K.to_vec(), other.clone()];
+            let mut p2 = vec![];
+            for init in [Init::Absent, Init::Present] {
+                for ms in multisets(&alpha, 2) {
+                    if !ms.iter().any(|t| stores.contains(t)) {
+                        continue;
+                    }
+                    p2.push(mk(init, ms.iter().map(|t| vec![*t]).collect(), K, other, keys.clone(), Policy::Random(400)));
+                }
+            }
+            fams.push(Family { name: format!("2x1/L=400-then-fill/{}", kname), programs: p2, opts: o });
+        }
+    }
     let alpha = [T::Set, T::SetBig, T::AppendBig, T::Incr, T::SetOther, T::Del, T::Get];
     let stores = [T::Set, T::SetBig, T::AppendBig, T::Incr, T::SetOther];
     let mut o = opts(if tier == Tier::Quick { 2 } else { 3 }, tier);
